@@ -159,6 +159,10 @@ pub struct ExecOpts {
     /// unwinding of a panic (the thread "dies") instead of by a normal return
     #[serde(default)]
     pub unwind_end: u16,
+    /// every try operation is bound to `probe_bound` own scheduling points in a row without a
+    /// change by another thread (C18 outside the solo-run probes)
+    #[serde(default)]
+    pub try_quiet: bool,
 }
 
 fn default_probe_bound() -> u64 {
@@ -178,6 +182,7 @@ impl Default for ExecOpts {
             mem: false,
             no_log: false,
             unwind_end: 0,
+            try_quiet: false,
         }
     }
 }
@@ -1654,6 +1659,15 @@ fn run_scenario_inner(sc: &Scenario) -> Execution {
         max_steps: if long_spins { sc.opts.max_steps.max(400_000) } else { sc.opts.max_steps },
         weak_cas_fail: sc.opts.weak_cas,
         quarantine: sc.opts.quarantine,
+        // only where C18 is stated: plain handles on a busy or yielding queue
+        try_quiet_bound: if sc.opts.try_quiet
+            && !sc.q.futures
+            && !matches!(sc.q.wait, crate::handles::WaitKind::Block(..) | crate::handles::WaitKind::BlockDefault)
+        {
+            sc.opts.probe_bound
+        } else {
+            0
+        },
         ..ExecCfg::default()
     };
     let sh2 = sh.clone();
